@@ -134,6 +134,10 @@ func (t *TestRenumberer) processYaml(ruleId string, contents []byte) ([]byte, er
 		}
 	}
 
+	if err := scanner.Err(); err != nil {
+		return nil, err
+	}
+
 	writer.Flush()
 	outputBytes := t.formatEndOfFile(bytes.Split(output.Bytes(), []byte("\n")))
 	return bytes.Join(outputBytes, []byte("\n")), nil
